@@ -16,7 +16,7 @@ from translator import aldi as tr
 ID = "C02"
 PROPS = "props/C02.v"
 GENERATED = [tr.OUT, tr.OUT_FD]
-CASE_DEPS = ["lib/Dual.vo", "model/AldiTree.vo", "model/AldiMaps.vo"]
+CASE_DEPS = ["lib/Dual.vo", "model/AldiTree.vo", "model/AldiMaps.vo", "model/AldiSelect.vo"]
 CORR_WITHOUT_PROOFS = True      # the executable model does not depend on the proofs: a broken rule lemma still lets model vs code be compared
 ALLOWED_AXIOMS = {
     "sig_forall_dec", "sig_not_dec", "functional_extensionality_dep", "classic",
@@ -861,6 +861,68 @@ def corr_steady(ctx, res: CorrResult, models):
     return len(nontrivial)
 
 
+def corr_steady_plans(ctx, res: CorrResult, models):
+    """steady plans fixing subsets of levels / changes: the reduced Jacobian eval_jacob returns vs the model's column
+    selection (masks built by the model from the plan's two lists) applied to the full Jacobian of the same evaluator;
+    also the integer index vector [positions of levels | n + positions of changes]. Compared bit-exactly."""
+    rng = ctx.rng
+    cases, texts = [], []
+    pool = [mm for mm in models if not mm.spec.get("flat") and len(mm.spec["xs"]) + len(mm.spec["ys"]) >= 2
+            and mm.spec.get("special") not in REJECTED_SNIPPETS]
+    try:
+        wm = build_model(STEADY_WITNESS)
+        pool = [SimpleNamespace(spec=STEADY_WITNESS, m=wm, info=None)] * ctx.scale(6, 40) + pool
+    except Exception:  # noqa
+        pass
+    for mm in pool[: ctx.scale(60, 1500)]:
+        m = mm.m.copy()
+        plan_spec = gen_steady_plan_spec(rng, mm.spec["xs"], mm.spec["ys"])
+        try:
+            ev = capture_steady(m, plan=build_steady_plan(m, plan_spec))
+        except Exception:  # noqa
+            res.distribution["steady_plan_setup_failed"] = res.distribution.get("steady_plan_setup_failed", 0) + 1
+            continue
+        if ev is None or type(ev).__name__.startswith("Flat"):
+            continue
+        try:
+            g = np.array(ev.get_init_guess(), dtype=float)
+            with quiet():
+                red = np.array(ev.eval_jacob(g), dtype=float)
+                full = np.array(ev._jacobian.eval(ev._steady_array, ev._column_offset), dtype=float)
+        except Exception:  # noqa
+            continue
+        if not (np.all(np.isfinite(red)) and np.all(np.isfinite(full))) or red.ndim != 2 or full.ndim != 2:
+            continue
+        n2q = m.create_name_to_qid()
+        names = list(mm.spec["xs"]) + list(mm.spec["ys"])
+        wrt = [int(q) for q in ev.wrt_qids]
+        levels = [n2q[n] for n in names if n not in plan_spec["fix_level"] and n2q[n] in wrt]
+        changes = [n2q[n] for n in names if n not in plan_spec["fix_change"] and n2q[n] in wrt]
+        zl = lambda l: coq_list([coq_z(q) for q in l])  # noqa
+        cases.append({"source": spec_source(mm.spec), "values": mm.spec["values"], "steady_plan": plan_spec})
+        texts.append(f"  (({zl(wrt)}, {zl(levels)}, {zl(changes)}, {coq_mat(full)}),\n   {coq_mat(red)})")
+    per = 40
+    shards = []
+    for i in range(0, len(texts), per):
+        lines = [HEADER, "From Verif Require Import model.AldiSelect.",
+                 "Definition cases : list ((list Z * list Z * list Z * list (list float)) * list (list float)) := [",
+                 ";\n".join(texts[i:i + per]), "].",
+                 "Definition same (a : list Z * list Z * list Z * list (list float)) (b : list (list float)) : bool :=\n"
+                 "  let '(wrt, lv, ch, full) := a in\n"
+                 "  let ml := mask_of wrt lv in let mc := mask_of wrt ch in\n"
+                 "  mat_eqb true (reduce_jacobian ml mc full) b &&\n"
+                 "  mat_eqb true (map (fun row => gather (column_index ml mc (List.length wrt)) row 0%float) full) b.",
+                 "Eval vm_compute in (failing_idx same cases 0)."]
+        shards.append(("\n".join(lines) + "\n", cases[i:i + per]))
+    run_shards(ctx, res, "steady_plan", shards)
+    res.evaluations += len(cases)
+    res.distribution["steady_plan_cases"] = len(cases)
+    res.distribution["steady_plan_fixed_levels"] = sum(1 for c in cases if c["steady_plan"]["fix_level"])
+    if cases:
+        res.samples.append(cases[0])
+    return len({(c["source"], repr(c["steady_plan"])) for c in cases})
+
+
 # ---- stacked time -----------------------------------------------------------------------
 
 def build_plan(m, span, start, plan_spec):
@@ -1054,6 +1116,7 @@ def correspondence(ctx) -> CorrResult:
     phase("systemize", lambda: corr_systemize(ctx, res, models))
     phase("steady", lambda: corr_steady(ctx, res, models[: ctx.scale(150, 3000)]))
     phase("stacked", lambda: corr_stacked(ctx, res, models[: ctx.scale(120, 2500)]))
+    phase("steady_plan", lambda: corr_steady_plans(ctx, res, models))
     res.distinct_nontrivial = nt
     res.distribution["models_generated"] = len(models)
     res.distribution["log_variable_models"] = sum(1 for mm in models if mm.spec["logs"])
